@@ -49,10 +49,12 @@ namespace
 
     std::string show(const std::vector<Tick> &v) { std::ostringstream o; for (auto &t : v) o << " t" << t.t << ":" << t.delta << "/" << t.value; return o.str(); }
 
+    bool g_raw = false;   // replay the recorded buffer ITSELF (the typed layout dense_record writes) instead of re-seeding it through set_replay_deltas
     template <typename Sh>
     Outcome run_shape(const std::vector<std::string> &script)
     {
         Outcome out;
+        Value raw1;
         Run r1, r2;
         r1.script = script; r1.cycles = static_cast<int>(script.size());
         r2 = r1;
@@ -72,6 +74,7 @@ namespace
                 auto ex = eb.make_executor();
                 ex.view().run();
                 rec1 = testing::get_recorded_deltas(ex.view().graph().global_state(), "rec");
+                if (g_raw && ex.view().graph().global_state().contains("rec")) raw1 = Value{ex.view().graph().global_state().get("rec")};
             }
             {
                 g = &r2;
@@ -80,7 +83,8 @@ namespace
                 wire<stdlib::dense_record_impl>(w, rp, Str{"rec2"});
                 wire<Probe<Sh>>(w, rp);
                 GraphBuilder gb = std::move(w).finish();
-                testing::set_replay_deltas(gb.global_state(), "rec", rec1);
+                if (g_raw && raw1.has_value()) gb.global_state().set("rec", raw1);
+                else testing::set_replay_deltas(gb.global_state(), "rec", rec1);
                 GraphExecutorBuilder eb;
                 eb.graph_builder(std::move(gb)).start_time(MIN_ST).end_time(MIN_ST + TimeDelta{r1.cycles + 4});
                 auto ex = eb.make_executor();
@@ -148,7 +152,14 @@ namespace
         return out;
     }
 
+    Outcome run_desc_plain(const std::string &desc);
     Outcome run_desc(const std::string &desc)
+    {
+        // "R:<shape>|..." replays the recorded buffer itself
+        if (desc.rfind("R:", 0) == 0) { g_raw = true; Outcome o; try { o = run_desc_plain(desc.substr(2)); } catch (...) { g_raw = false; throw; } g_raw = false; if (o.violation) o.violation = "(recorded buffer fed back as it is) " + *o.violation; return o; }
+        return run_desc_plain(desc);
+    }
+    Outcome run_desc_plain(const std::string &desc)
     {
         const auto bar = desc.find('|');
         const std::string shape = desc.substr(0, bar);
@@ -214,15 +225,16 @@ void verif_enumerate(verif::Ctx &ctx)
         while (true)
         {
             if (ctx.next_is_mine())
+            for (const char *mode : {"", "R:"})
             {
-                std::string desc = sp.shape + "|";
+                std::string desc = std::string{mode} + sp.shape + "|";
                 for (int c = 0; c < sp.cycles; ++c) desc += (c ? ";" : "") + lists[static_cast<std::size_t>(idx[static_cast<std::size_t>(c)])];
                 ++ctx.evaluations; ++ctx.traces;
                 Outcome o = run_desc(desc);
                 ctx.transitions += o.ticks;
                 ctx.state(o.sig);
                 if (o.nontrivial) ctx.nontriv(desc);
-                ctx.count("cases_" + sp.shape);
+                ctx.count(std::string{mode[0] ? "rawcases_" : "cases_"} + sp.shape);
                 if (o.violation)
                 {
                     Outcome o2 = run_desc(desc);
